@@ -39,7 +39,9 @@ def one_case(res, rng, case, seed):
     from flumine.execution.betdaqexecution import BetdaqExecution
     from flumine.order import ordertype as ot
     from flumine.order.orderpackage import BetdaqOrderPackage, OrderPackageType
-    from flumine.order.process import process_betdaq_current_order
+    from flumine.order.process import process_betdaq_current_order, process_betdaq_current_orders
+    from flumine.markets.markets import Markets
+    from flumine.markets.market import Market
     from flumine.order.trade import Trade
     payload = {"case": case, "seed": seed, "domain": "betdaq"}
     fw = mock.Mock()
@@ -47,6 +49,14 @@ def one_case(res, rng, case, seed):
     client = clients.BetdaqClient(mock.Mock(lightweight=False), username="u")
     client.execution = mock.Mock(EXCHANGE=ExchangeType.BETDAQ)
     st = BaseStrategy(market_filter={}, name="bdq")
+    # the orders live in the blotter of a real market: the order-stream wrapper finds them there by customer reference
+    markets = Markets()
+    book = mock.Mock(publish_time=123, bet_delay=0, status="OPEN", runners=[])
+    book.market_id = "1.900"
+    market = Market(fw, "1.900", book)
+    markets.add_market("1.900", market)
+    other = Market(fw, "1.901", book)
+    markets.add_market("1.901", other)
     orders, ops, outs = [], [], []
     due = {}          # id(order) -> kind of the request whose response is still due (the handlers only ever see such orders)
     next_bet = [700]
@@ -72,6 +82,7 @@ def one_case(res, rng, case, seed):
         o.client = client
         o.place(123, None, False)
         orders.append(o)
+        market.blotter[o.id] = o
         due[id(o)] = "place"
         ops.append("N:%d:%s" % (o._mid, "T" if lim else "F"))
 
@@ -232,8 +243,16 @@ def one_case(res, rng, case, seed):
                     stname = rng.choice(["Unmatched", "Unmatched", "Suspended", "Matched", "Cancelled", "Settled", "Void", "Other"])
                     seq = rng.choice([None, 1, 2, 3])
                     was_complete = o.complete
-                    process_betdaq_current_order(o, {"status": stname, "sequence_number": seq, "price": 2.5, "order_id": o.bet_id,
-                                                     "customer_reference": int(o.id)})
+                    co = {"status": stname, "sequence_number": seq, "price": 2.5, "order_id": o.bet_id, "customer_reference": int(o.id)}
+                    if rng.random() < 0.5:
+                        process_betdaq_current_order(o, co)
+                    else:
+                        # through the wrapper of the order stream: lookup by reference over all markets (plus a reference nobody knows)
+                        process_betdaq_current_orders(markets, None, mock.Mock(event=[{"status": "Matched", "sequence_number": 9, "price": 2.0,
+                                                                                 "order_id": 1, "customer_reference": 12345}, co]), None, None)
+                        if o.complete and o in list(market.blotter.live_orders):
+                            res.violate("complete-order-in-live-list", "betdaq order %d: complete after the stream update but still in the "
+                                        "blotter's live list" % o._mid, payload)
                     if stname in ("Unmatched", "Suspended") and o.complete and not was_complete:
                         res.violate("complete-while-resting-at-the-exchange", "betdaq order %d: the order stream reports it %s and it was "
                                     "marked complete (log %s)" % (o._mid, stname, [x.name for x in o.status_log]), payload)
